@@ -18,6 +18,7 @@ structure BLine (V : Type) where
   first : Nat
   last : Nat
   val : V
+deriving DecidableEq
 
 def writeBoundary (t : List (Row V)) : List (BLine V) := (genConstraints 3 t).map fun (i, d, x) => ⟨i, d, d, x⟩
 
@@ -32,6 +33,7 @@ structure DLine (V : Type) where
   id : Nat
   dof : Nat
   val : V
+deriving DecidableEq
 def writeCload (t : List (Row V)) : List (DLine V) := (genConstraints 3 t).map fun (i, d, x) => ⟨i, d, x⟩
 def readDLine (l : DLine V) : Row V := (l.id, (List.range 3).map fun k => if k = l.dof - 1 then some l.val else none)
 def readCload (ls : List (DLine V)) : List (Row V) := ls.map readDLine
